@@ -63,6 +63,8 @@ pub enum Finals {
     PointVsScan,
     /// C04: after dropping every handle, reopening shows exactly the content seen right before the close
     ReopenSame,
+    /// C02: a process-crash image taken once every thread has been acknowledged recovers exactly the acknowledged state
+    CrashImage,
 }
 
 enum AnyDb {
@@ -239,6 +241,8 @@ impl Body for VisBody {
         {
             let done = done.clone();
             let final_state = final_state.clone();
+            let finals = self.finals;
+            let dirp = dir.to_path_buf();
             handles.push(spawn_client("closer", move || {
                 client_block_until(&|| done.load(Ordering::SeqCst) == n, "closer.wait_clients");
                 // (keyspace, key, point read, scan value) for every key of the universe
@@ -255,6 +259,9 @@ impl Body for VisBody {
                     }
                 }
                 *final_state.lock().unwrap() = out;
+                if finals == Finals::CrashImage {
+                    let _ = crate::crash::copy_tree(&dirp, &dirp.with_extension("img"));
+                }
                 drop(kss);
                 drop(db);
             }));
@@ -284,6 +291,22 @@ impl Body for VisBody {
                     if point != scan {
                         return Err(Violation::new("point_read_vs_scan", format!("after all threads finished: {ks}.{k}: get = {point}, scan = {scan}")));
                     }
+                }
+            }
+            if finals == Finals::CrashImage {
+                let img = dir.with_extension("img");
+                let rec = crate::crash::recover_and_observe_inproc(&img, &crate::world::Cfg::default2());
+                let _ = std::fs::remove_dir_all(&img);
+                match rec {
+                    crate::crash::Recovered::Ok { content, .. } => {
+                        for (ks, k, _point, scan) in &fin {
+                            let got = content.get(ks).and_then(|m| m.get(k.as_bytes())).map(|v| String::from_utf8_lossy(v).into_owned()).unwrap_or_else(|| "-".into());
+                            if &got != scan {
+                                return Err(Violation::new("crash_image.acknowledged_write_missing", format!("every thread had been acknowledged; {ks}.{k} was {scan} but a crash image taken then recovers {got}")));
+                            }
+                        }
+                    }
+                    other => return Err(Violation::new("crash_image.recovery_failed", format!("{other:?}"))),
                 }
             }
             if finals == Finals::ReopenSame {
